@@ -349,6 +349,14 @@ TEMPLATES = [
     (':', 'def g(p:{e}): pass'), (':', 'x:{e} = 1'), (':', 'for i in d:{e}'),
     (':', 'if (w:={e}): pass'),
     (';', 'x=1;{e}'),
+    # a complete from-import followed by ';'-joined statements: the line starts with `from ` but the
+    # package-listing shortcut must not be taken once ` import ` has been typed (C12_from_shortcut_left)
+    (';', 'from os import getcwd; x = {e}'), (';', 'from os import getcwd;{e}'), (';', 'from os.path import join as jn; f({e})'),
+    (';', 'from os import (getcwd, sep); y = [{e}]'), (';', 'import sys; from os import getcwd; z = {e}'),
+    (';', 'from os import getcwd; from sys import argv; {e}'),
+    # evaluation that may come back to the expression under the cursor (loop-carried / self-referential)
+    ('selfref', 'while obj:\n    obj = {e}'), ('selfref', 'for it in d:\n    obj = {e}\nobj.attr'),
+    ('selfref', 'obj.field = {e}'), ('selfref', 'while obj:\n    prev = obj\n    obj = {e}\n    prev = obj'),
     ('fstring', 'x = f"{{{e}}}"'), ('fstring', 'x = f"a {{{e}!r}} b"'), ('fstring', "x = f'{{1+{e}:>3}}'"),
     ('string', 'x = "{e}"'), ('string', "x = 'see {e} here'"), ('string', 'x = "a.{e}"'), ('string', 'x = """({e}"""'),
     ('string', 'x = "=\\"{e}"'), ('string', 'x = b"{e}"'),
@@ -1011,6 +1019,15 @@ def run(ctx):
         seen.add((left, took))
         bterms.append('(%s, %s)' % (chars(left), 'true' if took else 'false'))
         bkeep.append((j, r))
+    for j, r in ok_res:
+        left = r['line'][:r['col']]
+        if r['kind'] in ('name', 'attr') and r['exp'] is not None and left.lstrip().startswith('from ') and r['line'].isascii():
+            # answered with the names / attributes of the analysis, i.e. the shortcut was not taken
+            took = any(w == 'transparency' for w, _d in direct_failures(r))
+            if (left, took) not in seen:
+                seen.add((left, took))
+                bterms.append('(%s, %s)' % (chars(left), 'true' if took else 'false'))
+                bkeep.append((j, r))
     cov['correspondence_cases']['from_branch'] = len(bterms)
     bad_b = ctx.run_cases(imports, prelude, 'check_branch', bterms, shard=shard_of(bterms))
     cov['from_branch_disagreements'] = len(bad_b)
